@@ -524,12 +524,23 @@ def finishClassOrEnum (F : Nat) (c : Core) (name : PQName) (isTypedef : Bool) (m
         else pure ()
     else pure ()
   else
-    loopN F () (fun _ => do
+    -- every declarator is parsed from THE SAME `Type` object, and `_parse_cv_ptr_or_fn` sets `const` / `volatile` on it in
+    -- place when they come first in a declarator (`struct S {…} const a, *b;`): the qualifiers written after the closing
+    -- brace stay on the object for all later declarators.  The model threads the object through the loop and reads those
+    -- leading qualifiers here (the same tokens, in the same order, with the same effect on the object).
+    loopN F parsedType (fun pt => do
       let location ← currentLocation
-      if (← parseDecl F c parsedType mods location none .none isTypedef false) then pure (.inr ())
+      let pt ← loopN F pt (fun pt => do
+        match (← tokenIf ["const", "volatile"]) with
+        | none => pure (.inr pt)
+        | some t =>
+          match (if t.type = "const" then setConst pt else setVolatile pt) with
+          | some d => pure (.inl d)
+          | none => pure (.inr pt))
+      if (← parseDecl F c pt mods location none .none isTypedef false) then pure (.inr ())
       else do
         let tok ← nextTokenMustBe [",", ";"]
-        if tok.type = ";" then pure (.inr ()) else pure (.inl ()))
+        if tok.type = ";" then pure (.inr ()) else pure (.inl pt))
 
 /-- `_parse_enumerator_list`, one iteration, first part: the doc block above and the name -/
 def enumHead : M (Option String × CTok) := do
@@ -764,7 +775,9 @@ def nsFinish (location : LocRef) (doxygen : Option String) (inline : Bool) (name
     if state.kind = .cls then cxxError "namespace cannot be defined in a class"
     else
       match nsAlias with
-      | some a => emit (.namespaceAlias { alias := a.value, names := names })
+      | some a => do
+        setLoc location
+        emit (.namespaceAlias { alias := a.value, names := names })
       | none =>
         Prog.push { kind := .ns, loc := location, ns := { names := names, inline := inline, doxygen := doxygen } }
           (Prog.pure ())
@@ -817,7 +830,9 @@ def parseExtern (F : Nat) (c : Core) (tok : CTok) (doxygen : Option String) : M 
         -- an extern variable/function with specific linkage
         returnToken etok
         parseDeclarations F c tok doxygen
-    else parseTemplateInstantiation F c doxygen true
+    else do
+      setLoc (.tok tok.sidx)
+      parseTemplateInstantiation F c doxygen true
   | none => parseDeclarations F c tok doxygen
 
 /-- `_parse_friend_decl(tok, doxygen, template)` -/
@@ -915,17 +930,21 @@ def parseUsing (F : Nat) (c : Core) (tok : CTok) (doxygen : Option String) (temp
 /-! ### templates and concepts -/
 
 /-- `_parse_concept(tok, doxygen, template)` -/
-def parseConcept (F : Nat) (doxygen : Option String) (template : TemplateDecl) : M Unit := do
+def parseConcept (F : Nat) (tok : CTok) (doxygen : Option String) (template : TemplateDecl) : M Unit := do
   let name ← nextTokenMustBe ["NAME"]
   let _ ← nextTokenMustBe ["="]
   let toks ← consumeValueUntil F [] [",", ";"]
   let state ← getTop
   if state.kind = .cls then cxxError "concept cannot be defined in a class"
-  else emit (.concept { template := template, name := name.value, rawConstraint := createValue toks, doxygen := doxygen })
+  else do
+    setLoc (.tok tok.sidx)
+    emit (.concept { template := template, name := name.value, rawConstraint := createValue toks, doxygen := doxygen })
 
 /-- `_parse_template(tok, doxygen)` -/
-def parseTemplate (F : Nat) (c : Core) (doxygen : Option String) : M Unit := do
-  if !(← tokenPeekIf ["<"]) then parseTemplateInstantiation F c doxygen false
+def parseTemplate (F : Nat) (c : Core) (ttok : CTok) (doxygen : Option String) : M Unit := do
+  if !(← tokenPeekIf ["<"]) then do
+    setLoc (.tok ttok.sidx)
+    parseTemplateInstantiation F c doxygen false
   else do
     let template ← c.parseTemplateDecl
     let tok ← token
@@ -940,7 +959,7 @@ def parseTemplate (F : Nat) (c : Core) (doxygen : Option String) : M Unit := do
       parseDeclarations F c tok doxygen (.many templates)
     else if tok.type = "using" then parseUsing F c tok doxygen (some template)
     else if tok.type = "friend" then parseFriendDecl F c tok doxygen (.one template)
-    else if tok.type = "concept" then parseConcept F doxygen template
+    else if tok.type = "concept" then parseConcept F tok doxygen template
     else if tok.type = "requires" then do
       let r ← parseRequires F
       let template := TemplateDecl.mk template.params (some r)
@@ -977,7 +996,7 @@ def processIncludeDirective (tok : CTok) : M Unit := do
   | none => cxxError "incomplete #include directive" (some tok)
 
 /-- `_process_pragma_directive(_, doxygen)` -/
-def processPragmaDirective (F : Nat) : M Unit := do
+def processPragmaDirective (F : Nat) (ptok : CTok) : M Unit := do
   let tokens ← loopN F ([] : List CTok) (fun tokens => do
     match (← tokenNewlineEofOk) with
     | none => pure (.inr tokens)
@@ -987,6 +1006,7 @@ def processPragmaDirective (F : Nat) : M Unit := do
         let g ← consumeBalancedTokens F [tok]
         pure (.inl (tokens ++ g))
       else pure (.inl (tokens ++ [tok])))
+  setLoc (.tok ptok.sidx)
   emit (.pragma (createValue tokens))
 
 /-! ### `parse()` -/
@@ -1003,13 +1023,13 @@ def dispatch (F : Nat) (c : Core) (handler : String) (tok : CTok) (doxygen : Opt
   | "_parse_namespace" => parseNamespace F tok doxygen false
   | "_process_access_specifier" => processAccessSpecifier tok
   | "_consume_static_assert" => consumeStaticAssert F
-  | "_parse_template" => parseTemplate F c doxygen
+  | "_parse_template" => parseTemplate F c tok doxygen
   | "_parse_typedef" => parseTypedef F c doxygen
   | "_parse_using" => parseUsing F c tok doxygen none
   | "_on_empty_block_start" => raiseParseError (some tok)
   | "_on_block_end" => onBlockEnd F c
   | "_process_include_directive" => processIncludeDirective tok
-  | "_process_pragma_directive" => processPragmaDirective F
+  | "_process_pragma_directive" => processPragmaDirective F tok
   | "<lambda:Constant(None)>" => pure ()
   | other => unsupported ("dispatch handler " ++ other)
 
